@@ -212,7 +212,7 @@ pub fn all_ctor_positions() -> Vec<CtorPos> {
         CtorPos::Result2Ok,
         CtorPos::Result2Err,
     ];
-    for arity in 2..=4 {
+    for arity in 1..=4 {
         for slot in 0..arity {
             v.push(CtorPos::Tuple(arity, slot));
         }
@@ -261,6 +261,8 @@ pub fn enumerate_full(leaves: &[RTy], depth: usize) -> Vec<RTy> {
             next.push(RTy::BTreeSet(b(a)));
             next.push(RTy::Ref(b(a)));
             next.push(RTy::Result1(b(a)));
+            // one-element tuple `(T,)`: serde writes a one-element array
+            next.push(RTy::Tuple(vec![a.clone()]));
         }
         for a in &args {
             for c in &args {
@@ -304,6 +306,7 @@ pub fn enumerate_spines(leaves: &[RTy], fillers: &[RTy], depth: usize) -> Vec<RT
                     | CtorPos::BTreeSet
                     | CtorPos::Ref
                     | CtorPos::Result1
+                    | CtorPos::Tuple(1, _)
             );
             if needs_filler {
                 for f in fillers {
@@ -337,12 +340,16 @@ pub fn enumerate_spines(leaves: &[RTy], fillers: &[RTy], depth: usize) -> Vec<RT
 pub struct Project {
     /// (relative path, content)
     pub files: Vec<(String, String)>,
+    /// (relative path, content): written OUTSIDE the project directory and symlinked into place
+    #[serde(default)]
+    pub links: Vec<(String, String)>,
 }
 
 impl Project {
     pub fn single(content: impl Into<String>) -> Self {
         Project {
             files: vec![("src/lib.rs".to_string(), content.into())],
+            links: vec![],
         }
     }
     pub fn with_file(mut self, path: &str, content: impl Into<String>) -> Self {
@@ -356,6 +363,18 @@ impl Project {
                 std::fs::create_dir_all(parent)?;
             }
             std::fs::write(p, content)?;
+        }
+        for (i, (rel, content)) in self.links.iter().enumerate() {
+            let store = root.parent().unwrap_or(root).join("_linked_sources");
+            std::fs::create_dir_all(&store)?;
+            let target = store.join(format!("linked_{}.rs", i));
+            std::fs::write(&target, content)?;
+            let link = root.join(rel);
+            if let Some(parent) = link.parent() {
+                std::fs::create_dir_all(parent)?;
+            }
+            let _ = std::fs::remove_file(&link);
+            std::os::unix::fs::symlink(&target, &link)?;
         }
         Ok(())
     }
